@@ -170,6 +170,8 @@ class FnAnalysis:
         self.lambdas = {}    # declid -> list of lambda nodes held by the variable
         self.param_idx = {p["d"]: i for i, p in enumerate(fn.params)}
         self.params = fn.params
+        self.direct_only = False   # do not fold callee effects; log the calls instead
+        self.call_log = []         # [(node, callee Fn, this_paths, [(arg node, paths)], capmap)]
 
     # ---------------------------------------------------------------- recording
     def rec(self, kind, paths, how, node):
@@ -572,7 +574,8 @@ class FnAnalysis:
             callee = self.fn.unit.fns.get(e["fid"])
             if callee is not None:
                 cs = self.eff.summary(callee)
-                self.apply_summary(cs, {TMP}, [(a, ps) for a, ps in zip(args, arg_paths)], e)
+                self.apply_summary(cs, {TMP}, [(a, ps) for a, ps in zip(args, arg_paths)], e,
+                                   callee=callee)
         else:
             for ps, a in zip(arg_paths, args):
                 self.read(ps, a)
@@ -639,7 +642,14 @@ class FnAnalysis:
             return set()
         return {b + rest for b in bases}
 
-    def apply_summary(self, cs, this_paths, args, node, capmap=None, lam=False):
+    def apply_summary(self, cs, this_paths, args, node, capmap=None, lam=False, callee=None):
+        if self.direct_only:
+            if callee is not None and not lam:
+                self.call_log.append((node, callee, set(this_paths), list(args), capmap))
+            out = set()
+            for p in cs.ret:
+                out |= self.subst_path(p, this_paths, args, capmap, lam)
+            return out
         for (kind, p, how) in cs.effects:
             for q in self.subst_path(p, this_paths, args, capmap, lam):
                 self.rec(kind, [q], how, node)
@@ -665,9 +675,11 @@ class FnAnalysis:
         if callee is not None:
             # call of a local lambda variable: v_lambda already folded its effects
             if callee.is_lambda and obj_n is not None:
+                if self.direct_only:
+                    self.call_log.append((e, callee, set(), list(args), "lambda"))
                 return {TMP}
             cs = self.eff.summary(callee)
-            ret = self.apply_summary(cs, obj_paths or {TMP}, args, e)
+            ret = self.apply_summary(cs, obj_paths or {TMP}, args, e, callee=callee)
             rt = callee.type(callee.d.get("rt"))
             if self.is_alias_type(rt, rt.endswith("&")):
                 return ret or {TMP}
@@ -706,7 +718,9 @@ class FnAnalysis:
                 for ps, a in zip(arg_paths, args_n):
                     self.read(ps, a)
                 how = "whole" if name in MUT_WHOLE else "rmw" if name in MUT_RMW else "grow"
-                if how != "whole":
+                if name in ("reserve", "resize", "shrink_to_fit"):
+                    how = name
+                elif how != "whole":
                     self.read(obj_paths, e)
                 self.write(obj_paths, how, e)
                 if name == "operator=" or name in MUT_RMW:
@@ -739,9 +753,15 @@ class FnAnalysis:
                 return {p + (("[]", c),) for p in (arg_paths[0] if arg_paths else set())}
             return out or {TMP}
         if bn in WRITE_RANGE_FREE:
+            wset = set()
+            for i in WRITE_RANGE_FREE[bn]:
+                if i < len(arg_paths):
+                    wset |= arg_paths[i]
             for i, (ps, a) in enumerate(zip(arg_paths, args_n)):
                 if i in WRITE_RANGE_FREE[bn]:
                     self.write(ps, "whole", e)
+                elif ps and ps <= wset:
+                    pass    # the end iterator of the written range
                 else:
                     self.read(ps, a)
             return {TMP}
